@@ -121,6 +121,14 @@ inline const support::Grid<D> &ctl_ret_local(const Spline<D, 1> &a) {
 inline const support::Support<D> &ctl_ret_temporary(const Spline<D, 1> &a) {
   return ctl_identity((a * 2.0).getSupport());
 }
+// R-LIFE.seq: moved into a by-value parameter while a sibling argument reads the same object
+inline size_t ctl_take(support::Support<D> s, size_t n) { return s.size() + n; }
+inline size_t ctl_moved_and_read(support::Support<D> s) { return ctl_take(std::move(s), s.size()); }
+inline size_t ok_moved_into_rvalue_ref_param(std::vector<D> v) {
+  std::vector<std::vector<D>> all;
+  all.emplace_back(std::move(v));
+  return all.size();
+}
 // R-API.ret: (synthetic baseline says this returned by value)
 inline const support::Grid<D> &ctl_api_ref(const Spline<D, 1> &a) { return a.getSupport().getGrid(); }
 // R-GRD.fwd: compound operator that skips its member operator on one path
@@ -143,6 +151,8 @@ inline void instantiate() {
     (void)ctl_ret_local(a0);
     (void)ctl_ret_temporary(a0);
     (void)ctl_api_ref(a0);
+    (void)ctl_moved_and_read(a0.getSupport());
+    (void)ok_moved_into_rvalue_ref_param({1.0});
     CtlCompound cc{a0, 1.0};
     (void)cc.transform(std::array<D, 2>{}, a0.getSupport().getGrid(), 0);
   }
